@@ -609,6 +609,10 @@ def splice_fn(em, toks, fn, fc, ctx, marks):
     """toks: T'd tokens; fn: Item parsed over them; fc: FnC or None; marks: list collecting clause ids"""
     hend = fn.body[0] if fn.body else fn.hi - 1
     pre_attrs = []
+    if fc is not None and fn.body and not fc.external_body and (fc.stmts or fc.loops or getattr(fc, 'closures', None)) and not os.environ.get('VERIF_RECORD_OUTSIDE'):
+        rmap = local_renames(ctx, toks, fn)
+        if rmap:
+            fc = rename_hints(fc, rmap)
     if fc is not None:
         pre_attrs += list(fc.attrs)
         if fc.external_body and fn.body:
@@ -761,6 +765,90 @@ def init_post_member(toks, impl_item, sel):
             return '\n    open spec fn %s(%s: Self::Inner, %s: Iv<Self>, %s: Self) -> bool { %s }\n' % (post, names[0], names[1], fc.ret, body)
         return '\n    open spec fn %s(%s: Self::Inner, %s: Self) -> bool { %s }\n' % (post, names[0], fc.ret, body)
     return ''
+
+
+def fn_locals(toks, fn):
+    """identifiers bound inside the body of `fn`, in order of appearance: `let [mut] x`, `let (a, mut b)`, `for x in`,
+    `for (a, b) in`, closure parameters `|x|` in argument position"""
+    out = []
+    if not fn.body:
+        return out
+    lo, hi = fn.body[0] + 1, fn.body[1]
+    j = lo
+    KW = ('mut', 'ref', '_')
+
+    def pat_idents(a, b):
+        return [toks[q].text for q in range(a, b) if toks[q].kind == 'ident' and toks[q].text not in KW
+                and toks[q + 1].text not in ('::', '(', '{') and toks[q - 1].text not in ('::',) and not toks[q].text[:1].isupper()]
+
+    while j < hi:
+        t = toks[j]
+        if t.kind == 'ident' and t.text == 'let':
+            k = j + 1
+            while k < hi and toks[k].text not in ('=', ':', ';'):
+                if toks[k].text in ('(', '['):
+                    k = match_close(toks, k)
+                k += 1
+            out += pat_idents(j + 1, k)
+            j = k
+            continue
+        if t.kind == 'ident' and t.text == 'for':
+            k = j + 1
+            while k < hi and not (toks[k].kind == 'ident' and toks[k].text == 'in'):
+                k += 1
+            out += pat_idents(j + 1, k)
+            j = k
+            continue
+        if t.kind == 'punct' and t.text == '|' and toks[j - 1].text in ('(', ','):
+            k = j + 1
+            while k < hi and toks[k].text != '|':
+                k += 1
+            out += [toks[q].text for q in range(j + 1, k) if toks[q].kind == 'ident' and toks[q].text not in KW and toks[q - 1].text in ('|', ',', 'mut')]
+            j = k + 1
+            continue
+        j += 1
+    return out
+
+
+_LOCALS = None
+
+
+def local_renames(ctx, toks, fn):
+    """{old: new} when the body binds the same NUMBER of locals as on the tree the proof annotations were written for
+    (contracts/locals_baseline.json) but some carry other names: a pure rename, which the annotations follow"""
+    global _LOCALS
+    if _LOCALS is None:
+        p = os.path.join(os.path.dirname(os.path.dirname(os.path.abspath(__file__))), 'contracts', 'locals_baseline.json')
+        _LOCALS = json.load(open(p)).get('functions', {}) if os.path.exists(p) else {}
+    base = _LOCALS.get(ctx)
+    if base is None:
+        return {}
+    cur = fn_locals(toks, fn)
+    if len(cur) != len(base) or cur == base:
+        return {}
+    m = {}
+    for a, b in zip(base, cur):
+        if a != b:
+            if m.get(a, b) != b:
+                return {}          # not a consistent renaming
+            m[a] = b
+    if set(m.values()) & (set(base) - set(m)):
+        return {}                  # a new name collides with a kept one
+    return m
+
+
+def rename_hints(fc, m):
+    import copy as _c
+    fc2 = _c.copy(fc)
+    pat = re.compile(r'(?<![\w@])(' + '|'.join(re.escape(k) for k in sorted(m, key=len, reverse=True)) + r')(?!\w)')
+
+    def rn(text):
+        return pat.sub(lambda mm: m[mm.group(1)], text)
+    fc2.stmts = dict((k, rn(v)) for k, v in fc.stmts.items())
+    fc2.loops = dict((k, rn(v)) for k, v in fc.loops.items())
+    fc2.closures = dict((k, rn(v)) for k, v in getattr(fc, 'closures', {}).items())
+    fc2.note = (fc.note + ' ' if fc.note else '') + '[locals renamed in the body: proof annotations follow: %s]' % ', '.join('%s->%s' % kv for kv in sorted(m.items()))
+    return fc2
 
 
 def find_closures(toks, lo, hi):
